@@ -372,6 +372,9 @@ def run_diff(mp, rec, desc):
     f = fn.tree(mp)
     old = mp.prec
     label = '%s/%s/%s/%s' % (kind, desc['f']['fam'], opts.get('method', 'step'), '+'.join(sorted(opts)) or 'default')
+    if desc['f']['fam'] == 'ratl' and Q.cabs2(_shift_poly([Q.dy(c) for c in desc['f']['Q']], x0)[0]) == 0:
+        rec.note('generated point is exactly a pole (skipped)', desc, cap=5)
+        return
     try:
         mp.prec = p
         kw = _opts(mp, opts)
